@@ -72,7 +72,7 @@ def model_part(v, tier, invariants, clauses, props, seed_off=0, n_quick=1, shape
         if i % 2 == 0:
             inst["init"] = {}
     if quick:
-        insts = insts[:9]
+        insts = AM.spread(insts, 1, 9, offset=seed_off % 5) + AM.spread(insts, 1, 3, offset=11)
     consts = {"StopCycle": stop or (3 if quick else 4)}
 
     def widen():
